@@ -45,3 +45,30 @@ def c17_shape(repo):
         else:
             facts.append("DateTime::%s = construct list; find_date_time(&mut list, <arguments unchanged>)?; Ok(list)" % name)
     return (not problems), facts, problems
+
+
+def owned_zone_shape(repo):
+    """C13 'the owned and the borrowed constructor decide identically': TimeZone::new must be the plain delegation to the
+    borrowed check (which is under Verus contract), and the owned lookup the plain delegation to the borrowed one."""
+    problems, facts = [], []
+    src = open(os.path.join(repo, "src", "timezone", "mod.rs")).read()
+    def body_of(sig_re):
+        m = re.search(sig_re + r"[^{]*\{(.*?)\n    \}", src, re.S)
+        return re.sub(r"\s+", " ", m.group(1)).strip() if m else None
+    b = body_of(r"impl TimeZone \{.*?pub fn new\(")
+    want = r"^TimeZoneRef::new_unchecked\(&transitions, &local_time_types, &leap_seconds, &extra_rule\)\.check_inputs\(\)\?; Ok\(Self \{ transitions, local_time_types, leap_seconds, extra_rule \}\)$"
+    if b is None or not re.match(want, b):
+        problems.append("TimeZone::new is no longer `TimeZoneRef::new_unchecked(&..).check_inputs()?; Ok(Self {..})`: %r" % (b or "")[:200])
+    else:
+        facts.append("TimeZone::new = TimeZoneRef::new_unchecked(&transitions, &local_time_types, &leap_seconds, &extra_rule).check_inputs()?; Ok(Self { .. })")
+    b = body_of(r"pub fn as_ref\(&self\) -> TimeZoneRef<'_>")
+    if b is None or not re.match(r"^TimeZoneRef::new_unchecked\(&self\.transitions, &self\.local_time_types, &self\.leap_seconds, &self\.extra_rule\)$", b):
+        problems.append("TimeZone::as_ref is no longer the plain re-borrow: %r" % (b or "")[:200])
+    else:
+        facts.append("TimeZone::as_ref = TimeZoneRef::new_unchecked(&self.transitions, &self.local_time_types, &self.leap_seconds, &self.extra_rule)")
+    b = body_of(r"pub fn find_local_time_type\(&self, unix_time: i64\) -> Result<&LocalTimeType, TzError>")
+    if b is None or not re.match(r"^self\.as_ref\(\)\.find_local_time_type\(unix_time\)$", b):
+        problems.append("TimeZone::find_local_time_type is no longer `self.as_ref().find_local_time_type(unix_time)`: %r" % (b or "")[:200])
+    else:
+        facts.append("TimeZone::find_local_time_type = self.as_ref().find_local_time_type(unix_time)")
+    return (not problems), facts, problems
